@@ -217,6 +217,31 @@ func c14Bursts() []c14Burst {
 			}
 			return nil
 		}},
+		{"forged-resubmission", func(S *world.Server, st *c14State) error {
+			// an authorization for a device the server already holds (same id, same
+			// key), another field changed, signed by somebody who is not the GCA:
+			// refused, and nothing of it may reach the files the archive publishes
+			snap := S.VerifSnapshot()
+			var ids []uint32
+			for id := range snap.Equipment {
+				ids = append(ids, id)
+			}
+			if len(ids) == 0 {
+				return nil
+			}
+			sort.Slice(ids, func(i, j int) bool { return ids[i] < ids[j] })
+			a := world.FromGlowAuth(snap.Equipment[ids[0]])
+			a.Debt += 7
+			a.Sig = ref.Sign(keyFor("c14-not-the-gca"), a.SigningBytes())
+			code, _, err := S.Authorize(a)
+			if err != nil {
+				return fmt.Errorf("burst authorization request failed: %v", err)
+			}
+			if code == 200 {
+				return fmt.Errorf("an authorization that is not signed by the GCA was accepted")
+			}
+			return nil
+		}},
 		{"second-registration", func(S *world.Server, st *c14State) error {
 			// another key, correctly signed by the temporary key, on a registered
 			// server: refused - and the archive must keep verifying under the one
@@ -243,7 +268,7 @@ func getArchive(S *world.Server) (int, []byte, error) {
 }
 
 func TestC14GapMatrix(t *testing.T) {
-	ev.Rule("C14(1): COMPLETE MATRIX of (gap before each of the 6 files added to the archive) x (write burst: new device + first report, GCA registration + first device + report, rotation, conflicting authorization, burst of reports, a refused second registration) on generated states (unregistered / registered with 0-3 devices, reports, 0-1 archived weeks): the archive is requested and the burst runs from the gap's callback; oracle: every public file in the archive is a record-aligned byte prefix of the final file, every archived report verifies under an authorization in the same archive, every archived authorization under the archived GCA key, every weekly record under the archived server public key, no server.keys entry, the private key bytes occur nowhere, server.pubkey is exactly the public key; non-trivial = archive during which the burst landed; distinct by (state, gap, burst)")
+	ev.Rule("C14(1): COMPLETE MATRIX of (gap before each of the 6 files added to the archive) x (write burst: new device + first report, GCA registration + first device + report, rotation, conflicting authorization, burst of reports, a forged resubmission of a held authorization, a refused second registration) on generated states (unregistered / registered with 0-3 devices, reports, 0-1 archived weeks): the archive is requested and the burst runs from the gap's callback; oracle: every public file in the archive is a record-aligned byte prefix of the final file, every archived report verifies under an authorization in the same archive, every archived authorization under the archived GCA key, every weekly record under the archived server public key, no server.keys entry, the private key bytes occur nowhere, server.pubkey is exactly the public key; non-trivial = archive during which the burst landed; distinct by (state, gap, burst)")
 	server.VerifSetStepping(true)
 	cells := 0
 	rapid.Check(t, func(t *rapid.T) {
